@@ -356,6 +356,7 @@ func checkC14(w *World, r *Report) {
 	checkSizeDecidedResults(w, r, reach)
 	checkChainWalkBounds(w, r, "R14.7")
 	checkParseAlwaysParses(w, r, "R14.8")
+	checkParseTreesNotMemoised(w, r)
 }
 
 // checkNoAliasedHeaders (R14.3 / R01.7): no string or slice header is manufactured over memory
@@ -901,4 +902,70 @@ func checkParseAlwaysParses(w *World, r *Report, rule string) {
 		r.bad(rule, ssaName(parse), construct, w.posOf(parse.Pos()), "Parse can succeed at "+bad+" without having run the parser: what a scan of the source text decides there (no tags, short, only text) selects a second, simpler grammar in which comments are printed, escapes kept and dashes ignored")
 	}
 	r.floor("returns of Parse that can succeed", n, 1)
+}
+
+// checkParseTreesNotMemoised — R14.9: a parsed tree belongs to the template it was parsed for.
+// The result of Parser.Parse never becomes the value of a map entry: a table of trees keyed by
+// something computed from the source (its length, a hash of parts of it) makes two different
+// sources share one tree whenever the key does not tell them apart — which, for a key of bounded
+// size, is a matter of how long the templates are.
+func checkParseTreesNotMemoised(w *World, r *Report) {
+	parse := w.method("Parser", "Parse")
+	n := 0
+	for _, fn := range w.pkgFuncs() {
+		instrsOf(fn, func(in ssa.Instruction) {
+			c, ok := in.(*ssa.Call)
+			if !ok || calleeFunc(c) != parse {
+				return
+			}
+			n++
+			bad := ""
+			seen := map[ssa.Value]bool{}
+			var walk func(v ssa.Value)
+			walk = func(v ssa.Value) {
+				if seen[v] || v.Referrers() == nil || bad != "" {
+					return
+				}
+				seen[v] = true
+				for _, ref := range *v.Referrers() {
+					switch x := ref.(type) {
+					case *ssa.Extract:
+						if x.Index == 0 {
+							walk(x)
+						}
+					case *ssa.Phi:
+						walk(x)
+					case *ssa.MakeInterface:
+						walk(x)
+					case *ssa.ChangeInterface:
+						walk(x)
+					case *ssa.TypeAssert:
+						walk(x)
+					case *ssa.MapUpdate:
+						if x.Value == v {
+							bad = w.posOf(x.Pos())
+						}
+					case *ssa.Store:
+						if x.Val == v {
+							if al, ok := x.Addr.(*ssa.Alloc); ok {
+								for _, r2 := range *al.Referrers() {
+									if ld, ok := r2.(*ssa.UnOp); ok {
+										walk(ld)
+									}
+								}
+							}
+						}
+					}
+				}
+			}
+			walk(c)
+			construct := "the parsed tree is not entered into a table"
+			if bad != "" {
+				r.bad("R14.9", ssaName(fn), construct, w.posOf(in.Pos()), "the tree returned by Parse is stored as a map entry at "+bad+": sources that the table's key does not distinguish (same length, same hashed parts) are rendered from one tree — whether that happens depends on the templates' length and on where they differ")
+			} else {
+				r.ok("R14.9", ssaName(fn), construct, w.posOf(in.Pos()), "flows into a Template / a return value only", true)
+			}
+		})
+	}
+	r.floor("calls of Parser.Parse", n, 2)
 }
